@@ -52,6 +52,33 @@ func buildQuery(fr *FuncResult, o *Obligation, values []string) string {
 		for _, sk := range sks {
 			b.WriteString("(declare-fun " + sk.name + " () " + sk.sort + ")\n")
 		}
+		if len(sks) == 0 {
+			sort := "Int"
+			if fr.Mode == "bv" {
+				sort = "(_ BitVec 64)"
+			}
+			sks = goalIndexTerms(goal, sort)
+			if fr.Mode == "bv" {
+				// bit-vector index arithmetic defeats the solvers' pattern matching:
+				// also offer the element indexes read by the most recent ground facts
+				seen := map[string]bool{}
+				for _, sk := range sks {
+					seen[sk.name] = true
+				}
+				for i := o.Prefix - 1; i >= 0 && len(sks) < 6; i-- {
+					c := fr.Cmds[i]
+					if !strings.HasPrefix(c, "(assert ") || strings.Contains(c, "(forall ") {
+						continue
+					}
+					for _, sk := range goalIndexTerms(c, sort) {
+						if !seen[sk.name] && len(sks) < 6 {
+							seen[sk.name] = true
+							sks = append(sks, sk)
+						}
+					}
+				}
+			}
+		}
 		if len(sks) > 0 {
 			n := 0
 			for _, c := range fr.Cmds[:o.Prefix] {
